@@ -270,6 +270,10 @@ register(PropertySpec(
              "an index without keys (a comparison between two constants) records no coverage: later evaluations are not answered from an empty index"),
         Rule("REPLAY-FALSE-ASKED", _lazy("cacheidx", "rule_replay_false_asked"), 5,
              "a replay from a result cache hands false rows on only to an evaluation that asked for them (the cache also holds the false rows of an evaluation that did)"),
+        Rule("REPLAY-CHILD-DEDUP", _lazy("cacheidx", "rule_replay_child_dedup"), 1,
+             "the first evaluation (computed) and later ones (replayed) hand on the same rows: a replay goes through the duplicate suppression the operand applies to itself"),
+        Rule("INFER-MARK", _lazy("ruletree", "rule_infer_mark_transient"), 1,
+             "the inferred mark of a shared variable is given by evaluation code and taken back, never at construction time"),
     ],
     explanation="History independence is absence of residue on the shared expression nodes. Decided: where residue is "
                 "written (discovered mechanically from dataclass fields and mutation sites reachable from evaluation "
@@ -428,6 +432,8 @@ register(PropertySpec(
              "what a conclusion mentions and the fired row lacks is bound first: variables with or without a domain, flattened expressions (one conclusion per element)"),
         Rule("INFER-MARK", _lazy("ruletree", "rule_infer_mark"), 5,
              "a rule marks as inferred the selected variables it concludes on or that have no domain - not a flattened expression, not a domain variable selected next to them"),
+        Rule("INFER-MARK", _lazy("ruletree", "rule_infer_mark_transient"), 1,
+             "the inferred mark of a shared variable is given by evaluation code and taken back, never at construction time"),
     ],
     explanation="Attaching a branch rewires the condition tree in place; evaluation follows the left/right fields, not "
                 "the graph edges, so a selector that is attached in the graph but not stored in its parent's operand slot "
@@ -587,6 +593,8 @@ register(PropertySpec(
              "a lookup that binds a key to a value nothing is stored under is still answered from the entries that leave the key open (rows stored under partial bindings are reported as covered)"),
         Rule("REPLAY-FALSE-ASKED", _lazy("cacheidx", "rule_replay_false_asked"), 5,
              "a replay from a result cache hands false rows on only to an evaluation that asked for them (the cache also holds the false rows of an evaluation that did)"),
+        Rule("REPLAY-CHILD-DEDUP", _lazy("cacheidx", "rule_replay_child_dedup"), 1,
+             "a replay of an operand's rows goes through the duplicate suppression that operand applies to itself when it is evaluated"),
     ],
     explanation="Decides that the runtime switch governs reads and writes consistently: the asymmetric state (reads "
                 "unguarded, writes guarded) changes results because an empty lookup marks everything covered. Not "
@@ -648,6 +656,8 @@ register(PropertySpec(
              "the per-evaluation reset reaches variables that only a conclusion mentions"),
         Rule("ALLOC-AS-UNDECORATED", _lazy("registry", "rule_alloc_as_undecorated"), 2,
              "outside a block a decorated class is allocated by the __new__ the undecorated class would use, with the arguments of the call"),
+        Rule("INFER-MARK", _lazy("ruletree", "rule_infer_mark_transient"), 1,
+             "the inferred mark of a shared variable is given by evaluation code and taken back, never at construction time"),
     ],
     explanation="Registry discipline is ownership: a single writer, on a must-pass-through path of the concrete "
                 "constructor arm, keyed by the runtime class; the symbolic arm provably (call-graph closure) cannot "
